@@ -379,3 +379,11 @@ mod tests {
         );
     }
 }
+
+// Verification hooks (add-only): inert unless built by Kani or with `--cfg indicatif_verif`.
+#[cfg(kani)]
+#[path = "/verif/kani/format.rs"]
+mod verif_kani;
+#[cfg(indicatif_verif)]
+#[path = "/verif/hooks/format.rs"]
+pub mod verif_hooks;
